@@ -59,7 +59,13 @@ pub fn child(file: &str) {
     let base = unhex_s(lines.next().unwrap());
     let names_file = unhex_s(lines.next().unwrap());
     std::env::set_var("CARGO_MANIFEST_DIR", &base);
-    let mut ructe = match ructe::Ructe::new(PathBuf::from(&out)) {
+    // both constructors: `from_env` reads OUT_DIR, `new` takes the path
+    let via_env = out.len() % 2 == 1;
+    if via_env {
+        std::env::set_var("OUT_DIR", &out);
+    }
+    let made = if via_env { ructe::Ructe::from_env() } else { ructe::Ructe::new(PathBuf::from(&out)) };
+    let mut ructe = match made {
         Ok(r) => r,
         Err(e) => {
             println!("HARNESS-ERROR new: {e:?}");
